@@ -60,7 +60,7 @@ func runC05(c *kit.Ctx) {
 	ntype := dataConst(c, "PointTypeNodeType")
 
 	isBegin := func(sc *scenario, call *ast.CallExpr) string {
-		if kit.CallIs(sc.f.Info(), call, qBegin) {
+		if isBeginCall(sc.std.Cur(), call) {
 			return "Begin"
 		}
 		for _, s := range m.sql.Sites {
@@ -676,12 +676,7 @@ func checkTxTypestate(c *kit.Ctx, m *storeModel, r *kit.Rule) {
 		if f.Body == nil {
 			continue
 		}
-		var begin *ast.CallExpr
-		for _, call := range f.AllCalls(false) {
-			if kit.CallIs(f.Info(), call, qBegin) {
-				begin = call
-			}
-		}
+		begin := beginCallOf(f)
 		if begin == nil {
 			continue
 		}
@@ -695,7 +690,7 @@ func txTypestate(c *kit.Ctx, f *kit.Func, r *kit.Rule) {
 	st := &kit.Std{F: f}
 	st.ErrTag = func(call *ast.CallExpr, s kit.S) string {
 		switch {
-		case kit.CallIs(info, call, qBegin):
+		case isBeginCall(f, call):
 			return "begin"
 		case kit.CallIs(info, call, qCommit):
 			return "commit"
@@ -726,7 +721,7 @@ func txTypestate(c *kit.Ctx, f *kit.Func, r *kit.Rule) {
 	var bothSites []*ast.CallExpr
 	st.OnCall = func(call *ast.CallExpr, n ast.Node, s kit.S) []kit.S {
 		switch {
-		case kit.CallIs(info, call, qBegin):
+		case isBeginCall(f, call):
 			return []kit.S{s.Set("tx", "beginpending")}
 		case kit.CallIs(info, call, qCommit):
 			if s.Get("tx") == "rolledback" {
